@@ -579,7 +579,9 @@ func (g *gen) field0(parent *ast.Definition, f *ast.FieldDefinition, depth int, 
 		g.label("aliases")
 	}
 	leaf := isLeaf(g.s, f.Type)
+	repeated := false
 	if prev, used := sc.keys[key]; used {
+		repeated = prev == sig
 		if prev != sig {
 			// would conflict: choose a fresh alias instead
 			alias = fmt.Sprintf("k%d", len(sc.keys))
@@ -587,7 +589,9 @@ func (g *gen) field0(parent *ast.Definition, f *ast.FieldDefinition, depth int, 
 			if _, u2 := sc.keys[key]; u2 {
 				return ""
 			}
-		} else if g.o.Avoid["op.duplicateKeyDifferentConditions"] || g.o.Avoid["op.duplicateResponseKey"] {
+		} else if g.o.Avoid["op.duplicateResponseKey"] {
+			return ""
+		} else if g.o.Avoid["op.duplicateKeyDifferentConditions"] && (sc.inFrag > 0 || sc.fragKeys[key] || sc.dirKeys[key]) {
 			return ""
 		} else if leaf {
 			if !g.o.DupKeys {
@@ -618,7 +622,8 @@ func (g *gen) field0(parent *ast.Definition, f *ast.FieldDefinition, depth int, 
 		b.WriteString("(" + args + ")")
 		g.label("arguments")
 	}
-	if !(helper && g.o.Avoid["op.helperFieldConditional"]) {
+	plainRepeat := repeated && g.o.Avoid["op.duplicateKeyDifferentConditions"] // a repeated key under the same conditions: no directives
+	if !(helper && g.o.Avoid["op.helperFieldConditional"]) && !plainRepeat {
 		if d := g.dirs(); d != "" {
 			b.WriteString(" " + strings.TrimSpace(d))
 			if sc.dirKeys == nil {
